@@ -17,7 +17,7 @@ TOOLS = os.path.join(VERIF, 'tools')
 NCPU = int(os.environ.get('VERIF_JOBS', '0')) or (os.cpu_count() or 4)
 MEM_KB = int(os.environ.get('VERIF_MEM_KB', str(10 * 1024 * 1024)))
 
-CLANG_FLAGS = ['-std=c++17', '-O0', '-DNDEBUG', '-fno-discard-value-names', '-Xclang', '-disable-O0-optnone',
+CLANG_FLAGS = ['-std=c++17', '-O0', '-DNDEBUG', '-fno-access-control', '-fno-discard-value-names', '-Xclang', '-disable-O0-optnone',
                '-S', '-emit-llvm', '-I' + REPO, '-I' + os.path.join(VERIF, 'shims'), '-DTLX_VERIF_EXTRACT']
 
 TRUSTED_BASE = [
@@ -37,7 +37,7 @@ class Job:
     def __init__(self, name, shim, contract, harness, enforce, replace=(), defines=(), shim_defines=(),
                  unwind=None, unwindset=(), loop_contracts=False, backend='sat', timeout=300, label='complete',
                  functions=(), tier='quick', cbmc_flags=(), clause=None, what='', known=(), no_canary=False,
-                 extra_sources=(), object_bits=None, ignore=None, ignore_why='', resolve=None, replace_calls=(), witness_defines=()):
+                 extra_sources=(), object_bits=None, ignore=None, ignore_why='', resolve=None, replace_calls=(), witness_defines=(), include_dirs=(), resolve_types=None, mode='dfcc'):
         self.name = name; self.shim = shim; self.contract = contract; self.harness = harness
         self.enforce = list(enforce) if isinstance(enforce, (list, tuple)) else [enforce]
         self.replace = list(replace); self.defines = list(defines); self.shim_defines = list(shim_defines)
@@ -47,7 +47,7 @@ class Job:
         self.what = what; self.known = list(known); self.no_canary = no_canary
         self.extra_sources = list(extra_sources); self.object_bits = object_bits
         self.ignore = ignore; self.ignore_why = ignore_why; self.unreachable = 0; self.ignored = []
-        self.resolve = dict(resolve or {}); self.replace_calls = list(replace_calls); self.witness_defines = list(witness_defines)
+        self.resolve = dict(resolve or {}); self.replace_calls = list(replace_calls); self.witness_defines = list(witness_defines); self.include_dirs = list(include_dirs); self.resolve_types = dict(resolve_types or {}); self.mode = mode
         # result fields
         self.status = None; self.obligations = 0; self.discharged = 0; self.failed = []; self.solver_s = 0.0
         self.wall_s = 0.0; self.detail = ''; self.canary_ok = None; self.sample = None
@@ -207,16 +207,39 @@ class Runner:
         for macro, pat in job.resolve.items():
             rx = re.compile(pat)
             hits = [m for m, dn in zip(info['functions'], info['demangled']) if rx.search(dn)]
+            if len(hits) == 0 and macro.startswith('OPT_'):
+                continue      # optional: the function is simply not part of this extraction
             if len(hits) != 1:
                 raise Undecided('job %s: /%s/ matches %d extracted functions, need exactly one (extraction break)' % (job.name, pat, len(hits)))
             resolved[macro] = hits[0] if re.fullmatch(r'[A-Za-z_][A-Za-z0-9_]*', hits[0]) else 'g_' + re.sub(r'[^A-Za-z0-9_]', '_', hits[0])
+        # macro -> name of the unique generated struct type whose name matches the regex
+        if job.resolve_types:
+            names = re.findall(r'^struct (?:__attribute__\(\(packed\)\) )?(\w+) \{', open(os.path.join(shim['dir'], 'gen.h')).read(), re.M)
+            for macro, pat in job.resolve_types.items():
+                rx = re.compile(pat)
+                hits = [n for n in names if rx.search(n)]
+                if len(hits) != 1:
+                    raise Undecided('job %s: struct pattern /%s/ matches %d generated types, need exactly one (extraction break)' % (job.name, pat, len(hits)))
+                resolved[macro] = 'struct ' + hits[0]
         job._resolved = resolved
-        extra_defs = list(extra_defs) + ['%s=%s' % kv for kv in resolved.items()]
+        extra_defs = list(extra_defs) + ['%s=%s' % kv for kv in resolved.items()]   # (filled below, after the type resolution)
         bad = [n for n in info['called_declared_only'] if n not in HARMLESS_DECLS]
         job._declared_only = bad
         gb = os.path.join(d, 'a.gb')
-        srcs = [os.path.join(VERIF, 'contracts', job.contract)] + [os.path.join(VERIF, x) for x in job.extra_sources]
-        cmd = ['goto-cc', '-I', TOOLS, '-I', shim['dir'], '-I', os.path.join(VERIF, 'contracts'), '-DHARNESS=' + job.harness] + \
+        csrc = os.path.join(VERIF, 'contracts', job.contract)
+        if job.mode == 'assert':
+            # contract enforced by rewriting (requires -> assume, ensures -> assert); no frame check, much cheaper than dfcc
+            sys.path.insert(0, TOOLS)
+            import c2n
+            csrc2 = os.path.join(d, 'contract_assert_mode.c')
+            try:
+                open(csrc2, 'w').write('#line 1 "%s"\n' % csrc + c2n.convert(open(csrc).read()))
+            except Exception as ex:
+                raise Undecided('job %s: c2n rewriting failed: %r' % (job.name, ex))
+            csrc = csrc2
+            extra_defs = list(extra_defs) + ['ASSERT_MODE']
+        srcs = [csrc] + [os.path.join(VERIF, x) for x in job.extra_sources]
+        cmd = ['goto-cc', '-I', TOOLS, '-I', shim['dir'], '-I', os.path.join(VERIF, 'contracts'), '-DHARNESS=' + job.harness] + [x for d_ in job.include_dirs for x in ('-I', d_)] + \
               ['-D' + x for x in list(job.defines) + list(extra_defs)] + srcs + \
               [os.path.join(shim['dir'], 'gen.gb'), os.path.join(shim['dir'], 'prelude.gb'), '--function', job.harness, '-o', gb]
         rc, o, e = sh(cmd, timeout=600)
@@ -234,11 +257,18 @@ class Runner:
         if job.replace_calls:
             nxt = os.path.join(d, 'r.gb')
             cmd = ['goto-instrument']
-            for old, new in job.replace_calls: cmd += ['--replace-calls', '%s:%s' % (resolved.get(old, old), new)]
+            for old, new in job.replace_calls:
+                if old.startswith('OPT_') and old not in resolved: continue
+                cmd += ['--replace-calls', '%s:%s' % (resolved.get(old, old), new)]
             cmd += [cur, nxt]
             rc, o, e = sh(cmd, timeout=900)
             if rc != 0: raise Undecided('job %s: goto-instrument --replace-calls failed: %s' % (job.name, (o + e)[-3000:]))
             cur = nxt
+        if job.mode == 'assert':
+            nxt = os.path.join(d, 'c.gb')
+            shutil.copyfile(cur, nxt)
+            job._dfcc_log = ''
+            return nxt
         nxt = os.path.join(d, 'c.gb')
         cmd = ['goto-instrument', '--dfcc', job.harness]
         for f in job.enforce: cmd += ['--enforce-contract', resolved.get(f, f)]
@@ -342,7 +372,7 @@ class Runner:
         rdir = os.path.join(self.odir, 'replay'); os.makedirs(rdir, exist_ok=True)
         rpath = os.path.join(rdir, re.sub(r'[^A-Za-z0-9_.-]', '_', job.name) + '.json')
         rep = {'property': self.prop, 'job': job.name, 'harness': job.harness, 'contract': job.contract, 'shim': job.shim,
-               'defines': job.defines + ['%s=%s' % kv for kv in getattr(job, '_resolved', {}).items()], 'shim_defines': job.shim_defines, 'what': job.what,
+               'defines': job.defines + ['%s=%s' % kv for kv in getattr(job, '_resolved', {}).items()], 'include_dirs': job.include_dirs, 'shim_defines': job.shim_defines, 'what': job.what,
                'failed_obligations': [{'property': r['property'], 'description': r.get('description'),
                                        'location': r.get('sourceLocation', {})} for r in job.failed],
                'verifier_output': ['%s: %s: %s' % (r['property'], r.get('description'), r['status']) for r in job.failed],
@@ -483,8 +513,25 @@ def main(prop, jobs_fn, meta):
         jj = [j for j in jobs if j.name == k.get('job')]
         if jj and jj[0].status == 'pass': print('NOTE: known finding no longer reproduces: %s' % k['what'])
     vio_records = []
-    for j in violations:
-        rpath, repro, text = R.counterexample(j)
+    # counterexample extraction + native replay, in parallel; at most MAXREPLAY native replays per run (the rest is
+    # reported with the verifier's output only)
+    MAXREPLAY = int(os.environ.get('VERIF_MAX_REPLAY', '6'))
+    def cex(arg):
+        idx, j = arg
+        if idx >= MAXREPLAY:
+            rdir = os.path.join(R.odir, 'replay'); os.makedirs(rdir, exist_ok=True)
+            rpath = os.path.join(rdir, re.sub(r'[^A-Za-z0-9_.-]', '_', j.name) + '.json')
+            json.dump({'property': prop, 'job': j.name, 'what': j.what, 'checker_cmd': getattr(j, '_cmd', ''),
+                       'verifier_output': ['%s: %s: %s' % (r['property'], r.get('description'), r['status']) for r in j.failed],
+                       'note': 'native replay skipped: more than %d violations in this run' % MAXREPLAY}, open(rpath, 'w'), indent=1)
+            return rpath, None, 'native replay skipped (more than %d violations in this run)' % MAXREPLAY
+        try:
+            return R.counterexample(j)
+        except Exception as ex:
+            return os.path.join(R.odir, 'replay', j.name + '.json'), None, 'counterexample extraction failed: %r' % (ex,)
+    with cf.ThreadPoolExecutor(max_workers=max(1, min(NCPU, 8))) as ex:
+        cex_res = list(ex.map(cex, list(enumerate(violations))))
+    for j, (rpath, repro, text) in zip(violations, cex_res):
         tail = '' if repro else ' no-failing-input-found'
         print('VIOLATION property=%s replay=%s%s' % (prop, rpath, tail))
         print('  job %s (%s): failed obligation(s):' % (j.name, j.what))
@@ -525,7 +572,7 @@ def write_evidence(prop, tier, seed, jobs, meta, wall, nviol, known_hits, undeci
         per_job.append({'job': j.name, 'what': j.what, 'functions_under_contract': j.functions, 'enforced': j.enforce,
                         'replaced_by_contract': j.replace, 'replaced_by_uninterpreted_stub': ['%s -> %s' % rc for rc in j.replace_calls], 'obligations': j.obligations, 'discharged': j.discharged,
                         'status': j.status, 'back_end': j.backend, 'solver_s': round(j.solver_s, 2), 'wall_s': round(j.wall_s, 2),
-                        'completeness': j.label, 'unwind': j.unwind, 'loop_contracts': j.loop_contracts,
+                        'completeness': j.label, 'contract_enforcement': 'goto-instrument --dfcc (frame checked)' if j.mode == 'dfcc' else 'requires->assume / ensures->assert rewriting by tools/c2n.py (frame NOT checked)', 'unwind': j.unwind, 'loop_contracts': j.loop_contracts,
                         'canary_reached': j.canary_ok, 'unreachable_checks': j.unreachable,
                         'ignored_checks': ['%s: %s (%s)' % (r['property'], r.get('description'), j.ignore_why) for r in j.ignored][:10]})
         declared_only |= set(getattr(j, '_declared_only', []))
